@@ -128,15 +128,23 @@ def read (s : Stream) (n : Nat) : Bytes × Stream :=
   let got := (s.data.drop s.pos).take n
   (got, { s with pos := s.pos + got.length })
 
+/-- how many bytes `read(n)` may return this time: a raw stream (pipe, socket, `io.RawIOBase`) may return
+fewer bytes than asked for although more follow.  `caps` is the plan of such short reads, one cap (≥ 1)
+per call; when the plan is used up reads are limited by `n` and the data only (as `BytesIO` and buffered files
+always are). -/
+def readLimit (n : Nat) : List Nat → Nat
+  | [] => n
+  | k :: _ => min n k
+
 /-- the chunks `_iter_chunks` yields from the bytes that remain: `read(n)` until it returns `b""`.
 `fuel` bounds the number of reads (each non-empty read consumes at least one byte). -/
-def chunksF : Nat → Nat → Bytes → List Bytes
-  | 0, _, _ => []
-  | f + 1, n, rem =>
-    let c := rem.take n
-    if c.isEmpty then [] else c :: chunksF f n (rem.drop n)
+def chunksF : Nat → Nat → List Nat → Bytes → List Bytes
+  | 0, _, _, _ => []
+  | f + 1, n, caps, rem =>
+    let c := rem.take (readLimit n caps)
+    if c.isEmpty then [] else c :: chunksF f n caps.tail (rem.drop c.length)
 
-def chunks (n : Nat) (rem : Bytes) : List Bytes := chunksF (rem.length + 1) n rem
+def chunks (n : Nat) (caps : List Nat) (rem : Bytes) : List Bytes := chunksF (rem.length + 1) n caps rem
 
 /-- what the instrumented stream and the consumer of `iter_bytes()` log, in order -/
 inductive Ev
@@ -160,6 +168,7 @@ structure StreamIn where
   seekTo : Option (Int × Nat)   -- `seek_offset`, `seek_whence` ∈ {0, 1, 2}
   bufferNow : Bool
   iters : Nat                   -- how many times `iter_bytes()` is consumed afterwards
+  caps : List Nat := []         -- short-read plan of the stream (restarts with every evaluation of the reader)
 deriving Repr
 
 def seekEvs (i : StreamIn) : List Ev :=
@@ -182,7 +191,7 @@ def readAll (i : StreamIn) (s : Stream) (consumer : Bool) : List Ev × Option (L
   match seekRes i s0 with
   | .error e => (op ++ seekEvs i ++ cl ++ [Ev.raised e], none, s0)
   | .ok s1 =>
-    let cs := chunks i.chunkSize (s1.data.drop s1.pos)
+    let cs := chunks i.chunkSize i.caps (s1.data.drop s1.pos)
     let evs := cs.flatMap fun c => Ev.read i.chunkSize c.length :: (if consumer then [Ev.chunk c] else [])
     let s2 : Stream := { s1 with pos := s1.pos + cs.flatten.length }
     (op ++ seekEvs i ++ evs ++ [Ev.read i.chunkSize 0] ++ cl, some cs, s2)
@@ -411,7 +420,7 @@ def CT.wf (ct : CT) : Bool :=
   isToken ct.type && isToken ct.subtype && ct.params.all (fun p => isToken p.1) && !hasDupNames ct.params
 
 def StreamIn.wf (i : StreamIn) : Bool :=
-  i.chunkSize ≥ 1 && (match i.seekTo with | some (_, w) => w ≤ 2 | none => true)
+  i.chunkSize ≥ 1 && (match i.seekTo with | some (_, w) => w ≤ 2 | none => true) && i.caps.all (1 ≤ ·)
 
 def Input.wf : Input → Bool
   | .text s => s.all validCp
